@@ -228,6 +228,23 @@ class Run:
                     continue
                 cur = batch[pos]
                 if not p.is_alive():
+                    # the worker may have sent its last results and exited between the poll above and this test: drain the pipe before
+                    # declaring it dead (a worker that exits normally with everything delivered is finished, not dead)
+                    try:
+                        while pc.poll(0.2):
+                            i, r = pc.recv()
+                            results[i] = r
+                            pos += 1
+                    except (EOFError, OSError):
+                        pass
+                    running[k][3] = pos
+                    if pos >= len(batch):
+                        p.join(timeout=2)
+                        pc.close()
+                        del running[k]
+                        progressed = True
+                        continue
+                    cur = batch[pos]
                     results[cur] = dead(cur, f"worker died (exit code {p.exitcode})", ts)
                     rest = batch[pos + 1:]
                     if rest:
